@@ -462,6 +462,8 @@ def is_const_default(sch, ty, lit, ann, top=False):
         return False
     if t[0] == 'string':
         return ann.get('pilota.rust_type') != 'string'
+    if t[0] == 'binary' and ann.get('pilota.rust_type') == 'vec':
+        return False               # `"..".as_bytes().to_vec()`
     if t[0] == 'ref' and sch.types[t[1]]['kind'] == 'struct':
         d = sch.types[t[1]]
         given = {unescape(a[1]): b for a, b in lit[1]}
@@ -1244,7 +1246,13 @@ REPAIR_MARKERS = {
     'container-const-reference': r'return\s+self\.lit_as_rvalue\(&c\.lit,\s*ty\);',
     'double-sign-run': r'fn\s+parse_double\s*\(',
     'double-exponent-form': r'text\.split_once\(\[\'e\',\s*\'E\'\]\)',
+    'string-at-bytesvec': r'\(Literal::String\(s\),\s*CodegenTy::Vec\(inner\)\)',
+    'map-key-map': r'let\s+k\s*=\s*self\.lit_as_rvalue\(k,\s*k_ty\)',
+    # open without a proposed patch (None: never "present"): the document is probed alone on every run
+    'const-typedef-at-target': None,
 }
+# the patch proposed for a class (fam/gen/patches/<file>), where its name differs from the class name
+REPAIR_PATCH = {'map-key-map': 'map-key-rvalue', 'const-typedef-at-target': None}
 
 
 def repairs_present():
@@ -1254,7 +1262,7 @@ def repairs_present():
         src = open(os.path.join(core.REPO, 'pilota-build', 'src', 'middle', 'context.rs'), encoding='utf-8').read()
     except OSError:
         return set()
-    return set(n for n, rx in REPAIR_MARKERS.items() if re.search(rx, src))
+    return set(n for n, rx in REPAIR_MARKERS.items() if rx is not None and re.search(rx, src))
 
 
 def repair_docs():
@@ -1318,6 +1326,30 @@ def repair_docs():
                        F(9, 'big', 'double', 'default', D('1e0x1F4')), F(10, 'z', 'double', 'default', D('1.e---0x0'))]),
         Service('ExpSvc', [Method('pow', 'double', [F(1, 'x', 'double', 'default', D('1e--2')), F(2, 'y', 'double', 'optional', D('2e0x2'))])]),
     ], style=0)))
+    # a string default on a `binary` field with pilota.rust_type = "vec" (Vec<u8>): no (String, Vec) arm
+    out.append(('string-at-bytesvec', Doc('dbvec', [
+        Struct('BVec', [F(1, 'a', 'binary', 'default', Str('xy'), rust_type='vec'), F(2, 'b', 'binary', 'required', Str(''), rust_type='vec'),
+                        F(3, 'c', 'binary', 'optional', Str('line\\nnl \\\\ "q"'.replace('"', '\\"')), rust_type='vec'),
+                        F(4, 'd', 'binary', 'default', Str('single " inside', "'"), rust_type='vec'),
+                        F(5, 'plain', 'binary', 'default', Str('bytes'))]),
+        Service('BVecSvc', [Method('put', 'void', [F(1, 'data', 'binary', 'default', Str('arg'), rust_type='vec'),
+                                                   F(2, 'more', 'binary', 'optional', Str('héllo'), rust_type='vec')])]),
+    ], style=1)))
+    # a map literal (or `[]` for an empty map) as a map KEY: mk_map lowers keys through lit_into_ty, which has no arm for them.
+    # btree: BTreeMap<BTreeMap<..>, ..> is a type the emitted code compiles for (a hash map is no hash key)
+    out.append(('map-key-map', Doc('dmkey', [
+        Struct('MKey', [F(1, 'm', M(M('i32', 'i32'), 'i32'), 'default', LM((LM((I(1), I(2))), I(3)), (LM((I(4), I(5)), (I(6), I(7))), I(8))), rust_type='btree'),
+                        F(2, 'e', M(M('string', 'i8'), L('i32')), 'required', LM((LL(), LL(I(1))), (LM((Str('k'), I(1))), LL())), rust_type='btree'),
+                        F(3, 'n', M(M(M('i8', 'i8'), 'bool'), 'string'), 'optional', LM((LM((LM((I(1), I(2))), I(1))), Str('deep'))), rust_type='btree'),
+                        F(4, 'plain', M('i32', M('i32', 'i32')), 'default', LM((I(1), LM((I(2), I(3))))), rust_type='btree')]),
+    ], style=2)))
+    # a const of a TYPEDEF type used at the aliased type: ident_into_ty looks through the newtypes of the target only
+    out.append(('const-typedef-at-target', Doc('dpconv', [
+        Typedef('Count', 'i32'), Typedef('Label', 'string'), Typedef('Count2', R('Count')),
+        Const('K', R('Count'), I(1)), Const('KS', R('Label'), Str('x')), Const('K2', R('Count2'), I(2)),
+        Struct('PConv', [F(1, 'x', 'i32', 'default', Id('K')), F(2, 's', 'string', 'optional', Id('KS')), F(3, 'c', R('Count'), 'default', Id('K')),
+                         F(4, 'y', R('Count'), 'required', Id('K2')), F(5, 'l', L('i32'), 'default', LL(Id('K')))]),
+    ], style=0)))
     return out
 
 
@@ -1326,9 +1358,21 @@ def repair_doc_class(doc):
     out = set()
     consts = {it.name: it for it in doc.items if it.kind == 'const'}
 
+    typedefs = {it.name: it for it in doc.items if it.kind == 'typedef'}
+
+    def is_map_ty(ty):
+        return isinstance(ty, tuple) and ty[0] == 'map'
+
     def walk(lit, ty, ann):
         if ann.get('pilota.rust_wrapper_arc') == 'true':
             out.add('arc-field-default')
+        if lit[0] == 'str' and ty == 'binary' and ann.get('pilota.rust_type') == 'vec':
+            out.add('string-at-bytesvec')
+        if lit[0] == 'map' and is_map_ty(ty) and any(k[0] == 'map' or (k[0] == 'list' and is_map_ty(ty[1])) for k, _ in lit[1]):
+            out.add('map-key-map')
+        if lit[0] == 'id' and lit[1] in consts and isinstance(consts[lit[1]].ty, tuple) and consts[lit[1]].ty[0] == 'ref' \
+                and consts[lit[1]].ty[1] in typedefs and ty != consts[lit[1]].ty:
+            out.add('const-typedef-at-target')
         if lit[0] == 'dbl' and lit[1].startswith('-+'):
             out.add('double-sign-run')
         if lit[0] == 'dbl' and re.search(r'[eE](--|-?0x)', lit[1]):
@@ -1337,10 +1381,10 @@ def repair_doc_class(doc):
             out.add('container-const-reference')
         if lit[0] == 'list':
             for x in lit[1]:
-                walk(x, None, {})
+                walk(x, ty[1] if isinstance(ty, tuple) and ty[0] in ('list', 'set') else None, {})
         if lit[0] == 'map':
             for a, b in lit[1]:
-                walk(a, None, {}); walk(b, None, {})
+                walk(a, ty[1] if is_map_ty(ty) else None, {}); walk(b, ty[2] if is_map_ty(ty) else None, {})
     for it in doc.items:
         if it.kind == 'const':
             walk(it.lit, it.ty, {})
